@@ -46,6 +46,10 @@ var shapeTable = [][2]string{
 func run(c *props.Ctx) {
 	p := c.P
 	cfg := eng.ShapeConfig{ModelingPath: mc.ModelingPath}
+	// spawned element loops: C10's SYM-PART decides the partition for the parallel helpers of package modeling
+	cfg.PartitionDecided = func(fn *ssa.Function) bool {
+		return fn.Pkg != nil && fn.Pkg.Pkg.Path() == mc.ModelingPath
+	}
 	arrayFuncs := map[*ssa.Function]bool{}
 	for _, e := range shapeTable {
 		if e[0] == "math/trs" || e[0] == "math/quaternion" {
